@@ -245,7 +245,18 @@ def fx_div(fx):
     n = 0
     for fid, (fn, ft) in cl.run().items():
         n += taint.check_div(c, fn, ft)
-    return n == 2 and _fires(c, "div::bad_decode") and not _fires(c, "div::ok_decode")
+    ok1 = n == 2 and _fires(c, "div::bad_decode") and not _fires(c, "div::ok_decode")
+    # divisor read from a field that a constructor can leave at 0
+    c2 = _ctx()
+    cl2 = taint.new_closure(fx)
+    for fid in fx.fn_ids("src/lib.rs"):
+        if fid.startswith("divfield::"):
+            cl2.seed_entry(fid)
+    zf = {k: v for k, v in taint.zero_writable_fields(fx).items() if "divfield::" in k}
+    m = 0
+    for fid, (fn, ft) in cl2.run().items():
+        m += taint.check_div(c2, fn, ft, zero_fields=zf)
+    return ok1 and m == 2 and _fires(c2, "bad_decode_step") and not _fires(c2, "ok_decode_step")
 
 
 def fx_prune(fx):
@@ -590,3 +601,21 @@ def fx_builder(fx):
     n1 = flow.builder_consumes(c1, fx, "src/lib.rs", "builderfx::OkBuilder")
     n2 = flow.builder_consumes(c2, fx, "src/lib.rs", "builderfx::BadBuilder")
     return n1 == 2 and n2 == 2 and not c1.violations and len(c2.violations) == 1 and "content" in c2.violations[0]["construct"]
+
+
+def fx_recurse(fx):
+    from rules import taint
+    c = _ctx()
+    cl = taint.new_closure(fx)
+    for fid in fx.fn_ids("src/lib.rs"):
+        if fid.startswith("recfx2::"):
+            cl.seed_entry(fid)
+    n = taint.recursion_cycles(c, cl.run())
+    return n == 3 and _fires(c, "recfx2::bad_decode") and not _fires(c, "recfx2::ok_decode")
+
+
+def fx_uninit(fx):
+    from rules import uninit
+    c = _ctx()
+    n = uninit.run(c, fx, ["src/lib.rs"], only=lambda fid: "uninitfx::" in fid)
+    return n == 2 and _fires(c, "uninitfx::bad_array") and not _fires(c, "uninitfx::ok_array")
